@@ -45,6 +45,21 @@ V, A, I, S = K.V, K.A, K.I, K.S
 TRUE, FAIL, CUT = K.TRUE, K.FAIL, K.CUT
 CWIL = 'call_with_inference_limit'
 IMPL_ENV = {"SV_TIMEOUT_MS": "4000"}
+# the reference interpreter computes the trace of the left goal of a conjunction up to the whole tick
+# budget before it runs the right goal: its cost can grow exponentially with the budget on programs
+# like `p. p :- p, p.`; budgets are kept small and a model line that takes too long is dropped
+PHASE1_BUDGET = 48
+MODEL_LINE_TIMEOUT = 6.0
+
+
+def run_model_lines(lines):
+    out = K.run_guarded(core.driver_bin("C40"), [[l] for l in lines], MODEL_LINE_TIMEOUT, 6)
+    return {k: ("oof timeout" if v in ("hang", "skipped") or v.startswith("crash") else v) for k, v in out.items()}
+
+
+def run_impl_cases(cases_lines, per_line_timeout, jobs, env):
+    """guarded: a harness line that never answers (a loop the watchdog cannot interrupt) is `hang`."""
+    return K.run_guarded(core.HARNESS_BIN, cases_lines, per_line_timeout, jobs, env)
 
 
 def conj(gs):
@@ -200,7 +215,10 @@ class Gen:
         clauses = []
         for name, ar, kind in self.preds:
             ncl = self.rng.choice([1, 2, 2, 3])
-            for _ in range(ncl):
+            # K2: distinct first-argument constants (the cost of an index MISS on a predicate that files
+            # several clauses under one constant depends on the clause bodies: not mirrored, see design note)
+            firsts = self.rng.sample([A('a'), A('b'), I(1), I(2)], ncl)
+            for ci in range(ncl):
                 self.nvar = 0
                 vs = []
                 if ar == 0:
@@ -209,7 +227,7 @@ class Gen:
                     args = []
                     for j in range(ar):
                         if j == 0 and kind == 'K2':
-                            args.append(self.const())
+                            args.append(firsts[ci])
                         elif kind == 'K2' and self.rng.random() < 0.3:
                             args.append(self.const())
                         else:
@@ -289,14 +307,14 @@ def make_case(cid, clauses, goals, meta=None):
 
 
 def phase1_lines(c):
-    return ["run\t%s_u%d\t%s\t'u%d_%s'(R)\tR\t%d\t%d" % (c["id"], k, c["prog"], k, c["id"], MAXA, 140)
+    return ["run\t%s_u%d\t%s\t'u%d_%s'(R)\tR\t%d\t%d" % (c["id"], k, c["prog"], k, c["id"], MAXA, PHASE1_BUDGET)
             for k in range(len(c["goals"]))]
 
 
 def sweep(rng, n, tier):
     """limits for a goal whose unlimited run needs n inferences (None: does not finish)."""
     if n is None:
-        return sorted(set([0, 1, 2, 3] + [rng.randint(4, 40) for _ in range(5)]))
+        return sorted(set([0, 1, 2, 3] + [rng.randint(4, 34) for _ in range(5)]))
     top = n + 2
     full = list(range(0, top + 1))
     cap = 14 if tier == "quick" else 40
@@ -319,6 +337,10 @@ def build_lines(c, rng):
     if c.get("fresh"):
         impl.append("R\t%s_r0" % cid)
     impl.append("Q\t%s_m\t1\tuse_module(library(iso_ext))." % cid)
+    # consulted twice: a meta-call (call/1, catch/3, call_with_inference_limit/3, \\+ …) of a predicate that
+    # is not yet defined when the calling clause is compiled goes through the generic run-time
+    # resolution of call/N, which costs extra inferences; on the second load every predicate is known
+    impl.append("L\t%s_l0\tuser\t%s" % (cid, esc(c["text"])))
     impl.append("L\t%s_l\tuser\t%s" % (cid, esc(c["text"])))
     model = []
     qs = []
@@ -407,6 +429,8 @@ def directed(cid_prefix="d"):
        fresh=True)
     # 5: after 4 on a fresh machine: plain goals again (would show a poisoned counter)
     mk(5, [loop] + gen3, [(A('loop_'), R), (S('g_', V('X')), R)], fresh=True)
+    # 6: limits beyond 64 and 128 bits on a terminating goal (finding C40-3)
+    mk(6, gen3, [(S('g_', V('X')), R)], huge=True, fresh=True)
     return out
 
 
@@ -429,7 +453,7 @@ def items_impl(res):
 
 
 def transient(r):
-    return (r is None or r.startswith("timeout") or r.startswith("abort") or r.startswith("skipped")
+    return (r is None or r in ("hang", "skipped") or r.startswith("crash") or r.startswith("timeout") or r.startswith("abort") or r.startswith("skipped")
             or r.startswith("panic") or "'$interrupt_thrown'" in r or r == "exception('repl')" or "repl" in r and "interrupt" in r)
 
 
@@ -444,7 +468,7 @@ def symptom(mits, iits, raw):
     if iits is None:
         if raw is not None and raw.startswith("panic"):
             return "panic"
-        if raw is not None and (raw.startswith("timeout") or "repl" in raw):
+        if raw is not None and (raw.startswith("timeout") or raw == "hang" or "repl" in raw):
             return "limit-not-enforced"      # a goal under a small finite limit that runs into the watchdog
         return "no-result"
     m_ex = any(is_exceeded(x) for x in mits)
@@ -462,7 +486,7 @@ def symptom(mits, iits, raw):
 
 def run_robust(cases, tier):
     """implementation run; cases with a transient result are run again alone, serially."""
-    impl = core.run_impl_parallel([c["impl"] for c in cases], env=IMPL_ENV, jobs=8)
+    impl = run_impl_cases([c["impl"] for c in cases], 12.0, int(os.environ.get("SV_JOBS", "8")), IMPL_ENV)
     retried = 0
     cap = 12 if tier == "quick" else 40
     for c in cases:
@@ -474,7 +498,7 @@ def run_robust(cases, tier):
             lines = list(c["impl"])
             if not lines[0].startswith("R\t"):
                 lines = ["R\t%s_rr" % c["id"]] + lines
-            impl.update(core.run_impl(lines, env={"SV_TIMEOUT_MS": "12000"}))
+            impl.update(run_impl_cases([lines], 30.0, 1, {"SV_TIMEOUT_MS": "12000"}))
             c["rerun"] = True
     return impl, retried
 
@@ -489,7 +513,7 @@ def run(ctx):
             gs = [{"g": K.to_tuple(q["g"]), "r": K.to_tuple(q["r"]), "Ls": q.get("Ls"), "again": q.get("again", []),
                    "n": q.get("n")} for q in c["goals"]]
             cl = [(K.to_tuple(h), K.to_tuple(b)) for h, b in c["clauses"]]
-            cases.append(make_case(c["id"], cl, gs, {k: c[k] for k in ("family", "fresh") if k in c}))
+            cases.append(make_case(c["id"], cl, gs, {k: c[k] for k in ("family", "fresh", "huge") if k in c}))
     else:
         cases = []
         for c in diff.load_corpus("C40"):
@@ -511,7 +535,7 @@ def run(ctx):
             cases.append(make_case("c%d" % i, clauses, goals,
                                    {"family": "random", "features": sorted(g.features), "fresh": i % 16 == 0}))
     # phase 1: the full inference count of every goal (model)
-    m1 = core.run_model([l for c in cases for l in phase1_lines(c)], prop="C40")
+    m1 = run_model_lines([l for c in cases for l in phase1_lines(c)])
     for c in cases:
         for k, q in enumerate(c["goals"]):
             r = m1.get("%s_u%d" % (c["id"], k), "")
@@ -520,10 +544,12 @@ def run(ctx):
             q["n"] = max(0, int(m.group(1)) - 2) if m else None
             if q.get("Ls") is None:
                 q["Ls"] = sweep(rng, q["n"], tier)
+                if c.get("huge"):
+                    q["Ls"] = q["Ls"] + [2 ** 62, 2 ** 64 + 1, 2 ** 127, 2 ** 128 - 1, 2 ** 128, 2 ** 130 + 7]
             if "again" not in q or rep is None:
                 q["again"] = sorted(set(rng.choice(q["Ls"]) for _ in range(2)))
         build_lines(c, rng)
-    model = core.run_model([l for c in cases for l in c["model"]], prop="C40")
+    model = run_model_lines([l for c in cases for l in c["model"]])
     t_model = time.time() - t0
     impl, retried = run_robust(cases, tier)
     t_impl = time.time() - t0 - t_model
@@ -588,7 +614,8 @@ def run(ctx):
                 bad_case = True
                 sy = symptom(mits, iits, raw)
                 cls = ("nonvar-R" if (goal["r"][0] != 'v' or c["nonvarR"]) else "nested" if c["nested"] else "flat")
-                sig = {"class": cls, "symptom": sy, "inner_limit_fired": "yes" if inner > 0 else "no"}
+                sig = {"class": cls, "symptom": sy, "inner_limit_fired": "yes" if inner > 0 else "no",
+                       "limit": "huge" if q["L"] >= 2 ** 63 else "small"}
                 detail = ("%s\ngoal call_with_inference_limit(%s, %d, %s)\nreference     : %s\nimplementation: %s (load: %s)"
                           % (c["text"], gtxt, q["L"], K.pl(goal["r"]), mres, raw, loaded))
                 findings.append(core.Finding("violation", sig, detail, stored(c)))
@@ -606,7 +633,7 @@ def run(ctx):
                     continue
                 first = dict(impl_seq).get(q["L"])
                 again = items_impl(impl.get(q["id"]))
-                if first is None or again is None:
+                if first is None or again is None or lost_machine(first) or lost_machine(again):
                     continue
                 oracle["determinism"] += 1
                 if first != again and not bad_case:
@@ -670,6 +697,11 @@ def run(ctx):
     }
 
 
+def lost_machine(items):
+    """the harness replaced the machine (panic / watchdog earlier in the case): the program is gone."""
+    return any(k == 'exc' and re.search(r"'existence_error'\('procedure','/'\('[su]\d+_", t) for k, t in items)
+
+
 def drop_r(items):
     """answers without the R column (first argument of v(R, …)); balls unchanged."""
     out = []
@@ -699,7 +731,7 @@ def renumber(t):
 
 
 def stored(c):
-    return {"id": c["id"], "clauses": c["clauses"], "family": c.get("family"), "fresh": c.get("fresh", False),
+    return {"id": c["id"], "clauses": c["clauses"], "family": c.get("family"), "fresh": c.get("fresh", False), "huge": c.get("huge", False),
             "goals": [{"g": q["g"], "r": q["r"], "Ls": q["Ls"], "again": q.get("again", []), "n": q.get("n")}
                       for q in c["goals"]],
             "text": c["text"]}
